@@ -169,6 +169,8 @@ BREAKING = [
     ('C17', 'sc3/synth/node.py', "                time = -(time + 1)", "                time = -time", 'forced release time off by one'),
     ('C17', 'sc3/synth/bus.py', "            action(msg[3:])", "            action(msg[2:])", 'bus getn hands the count over as a value'),
     ('C17', 'sc3/synth/buffer.py', "            '/b_fill', self._bufnum, start, int(frames), *values)", "            '/b_fill', self._bufnum, int(frames), start, *values)", 'b_fill start and count swapped'),
+    ('C14', 'sc3/seq/event.py', "        server.addr.send_bundle(server.latency + self('delay'), msg)\n        self['is_playing'] = False", "        server.addr.send_bundle(server.latency, msg)\n        self['is_playing'] = False", 'mono release ignores its delay'),
+    ('C14', 'sc3/seq/event.py', "            msg = ['/n_free', self['node_id']]", "            msg = ['/n_free', self['node_id'], 0]", 'n_free with a stray argument'),
 ]
 
 
